@@ -16,7 +16,7 @@ import random
 from .. import evidence, tlc
 from ..common import MachineryError, Timer, guarded, log, pmap, seed, workdir
 from ..findings import Reporter
-from ..langs import LANGS, corpus_files, lexer_for
+from ..langs import LANGS, corpus_files, harvested_texts, lexer_for
 from ..tlaval import dump_chunks, parse, parse_state
 
 PROP = "C16"
@@ -156,7 +156,8 @@ def run(tier: str) -> int:
         raise MachineryError(f"Lexing.tla invariant {m.violated} violated but the real lex agrees with the reference on every replayed tokenisation: model is wrong")
 
     rng = random.Random(seed() * 101 + 16)
-    texts = [(lang, text) for lang, _, text in corpus_files()] + synth_texts(rng, b["synth"])
+    harvested = [(lang, text) for lang, _o, text in harvested_texts()]
+    texts = [(lang, text) for lang, _, text in corpus_files()] + synth_texts(rng, b["synth"]) + harvested
     jobs = [(lang, text, keep, b["max_tokens"]) for lang, text in texts for keep in (False, True)]
     rres = pmap(observe_real, jobs, timeout=120, chunk=8)
     trace = wd / "c16_trace.ndjson"
@@ -195,7 +196,7 @@ def run(tier: str) -> int:
         coverage={
             "states": m.distinct, "transitions": m.transitions, "traces_validated_against_impl": replayed + len(jobs), "exhaustive": True,
             "samples": samples + [{"language": jobs[0][0], "text_head": jobs[0][1][:80], "tokens_judged": len(rres[0][1]["toks"]) if rres[0][0] == "ok" else 0}],
-            "bounds": {"model_text_len": b["N"], "alphabet": ["newline", "blank", "other"], "corpus_files": len(corpus_files()), "synthetic_texts": len(texts) - len(corpus_files()), "max_tokens_per_event": b["max_tokens"]},
+            "bounds": {"model_text_len": b["N"], "alphabet": ["newline", "blank", "other"], "corpus_files": len(corpus_files()), "synthetic_texts": len(texts) - len(corpus_files()) - len(harvested), "texts_harvested_from_repository_tests": len(harvested), "max_tokens_per_event": b["max_tokens"]},
             "model": {"module": "Lexing.tla", "invariants": invs, "view": "LoopView (ghost token history hidden)", "violated": [list(x) for x in m.violated], "actions": m.coverage},
             "generator": {"complete_tokenisations_replayed": replayed, "disagreements": g_bad},
             "acceptor": {"module": "LexTrace.tla", "events": len(jobs), "rejected": len(rejected), "tokens_judged": ntok},
